@@ -1,5 +1,5 @@
 """C15 — Candidate and pair priorities follow RFC 8445 and order the check list."""
-import vlib
+import vlib, sim_common as sc
 
 META = dict(
     text="Coq theorems over definitions REGENERATED from /repo's candidate.c / agent.c / conncheck.c on every run by tools/c2v.py "
@@ -50,6 +50,8 @@ def pregen():
 
 def prebuild():
     m, o = vlib.ocaml_build("prio_model", "prio_model", DRIVER)
+    if m:
+        m, o = sc.build_sim()
     return None if m else o
 
 
@@ -213,12 +215,20 @@ def run(chk):
                             nontrivial=lambda l, o_: o_ is not None and " F" not in o_)
         else:
             vlib.correspond(chk, cases, impl, impl, oracle=oracle, what="priorities-oracle-only")
+    # live sessions: the glue around the formulas (which arguments the call sites pass, when the check list is re-sorted)
+    n = 400 if chk.tier == "quick" else 20000
+    sc.run_sim(chk, [sc.gen_priorities(chk.rng, i) for i in range(n)], lambda line, evs, meta: sc.oracle_priorities(evs, meta), "sim-C15")
     return chk.finish(**FINISH)
 
 
 def replay(chk, path):
     import json
     r = json.load(open(path))["replay"]
+    if r.get("case", "").startswith("prio"):
+        sim, o = sc.build_sim()
+        rc, so, se = vlib.run_lines(sim, r["case"] + "\n")
+        print(so.replace(" | ", "\n")[:8000]); print("oracle:", sc.oracle_priorities(sc.parse_trace(so)[1]))
+        return 0
     impl, o = build_impl()
     rc, so, se = vlib.run_lines(impl, r["case"] + "\n")
     print("impl:", so.strip(), "\noracle:", oracle(r["case"], so.strip()))
